@@ -81,6 +81,9 @@ class AccfgGen:
                 st["lvals"] = [r.choice(p["launch_pool"]) for _ in range(p["n_launch"][a])]
             if p.get("prethread") and r.random() < p["prethread"]:
                 st["link"] = True
+            if p.get("relaunch") and r.random() < p["relaunch"]:
+                # launch the same configuration again, directly or nested in a region without any setup
+                st["after"] = {"kind": r.choice(["plain", "if", "for"]), "cond": r.choice(["%b0", "%b1", "%b2"]), "ub": r.choice(["%n0", "%n1", "%c2"]), "n": r.randint(1, 2)}
             if p["gap"] and r.random() < 0.4:
                 for _ in range(r.randint(1, 2)):
                     g = r.choice(["pure", "opq", "call"])
@@ -93,7 +96,7 @@ class AccfgGen:
             ic = self.fresh("ic")
             node = {"k": "for", "iv": iv, "ic": ic, "body": [], "carry": [], "res": []}
             if p["const_bounds"] and r.random() < 0.5:
-                node["lb"], node["ub"], node["step"] = "%c0", r.choice(["%c1", "%c2", "%c3"]), "%c1"
+                node["lb"], node["ub"], node["step"] = r.choice([("%c0", "%c1"), ("%c0", "%c2"), ("%c0", "%c3"), ("%c0", "%c0"), ("%c1", "%c1"), ("%c1", "%c3"), ("%c2", "%c1")]) + (r.choice(["%c1", "%c1", "%c2"]),)
             else:
                 node["lb"] = r.choice(["%c0", "%c0", "%l0", "%c1"]) if p["lb_step"] else "%c0"
                 node["ub"] = r.choice(["%n0", "%n1", "%n2"])
@@ -228,6 +231,24 @@ def emit(ast, acc_names=None, vty="i32", decls=()) -> str:
             for g in s.get("gap", []):
                 stmt(ind, g)
             e(ind, f'"accfg.await"({tk}) : (!accfg.token<"{an}">) -> ()')
+            af = s.get("after")
+            if af:
+                def relaunch(i2):
+                    for _ in range(af["n"]):
+                        t2 = fresh("t")
+                        e(i2, f'{t2} = "accfg.launch"({largs}{st}) <{{param_names = [{lnames}], accelerator = "{an}"}}> : ({ltys}!accfg.state<"{an}">) -> !accfg.token<"{an}">')
+                        e(i2, f'"accfg.await"({t2}) : (!accfg.token<"{an}">) -> ()')
+
+                if af["kind"] == "plain":
+                    relaunch(ind)
+                elif af["kind"] == "if":
+                    e(ind, f'scf.if {af["cond"]} {{')
+                    relaunch(ind + 1)
+                    e(ind, "}")
+                else:
+                    e(ind, f'scf.for {fresh("ir")} = %c0 to {af["ub"]} step %c1 {{')
+                    relaunch(ind + 1)
+                    e(ind, "}")
         elif k == "call":
             eff = {"none": '"accfg.effects" = #accfg.effects<none>, ', "full": '"accfg.effects" = #accfg.effects<full>, ', "unannotated": ""}[s["eff"]]
             if s.get("callee") == "llvm":
@@ -325,6 +346,10 @@ def shrink_body(body):
             yield body[:i] + s["else"] + body[i + 1 :]
         if k == "sl" and s.get("gap"):
             yield body[:i] + [dict(s, gap=[])] + body[i + 1 :]
+        if k == "sl" and s.get("after"):
+            yield body[:i] + [{kk: vv for kk, vv in s.items() if kk != "after"}] + body[i + 1 :]
+            if s["after"]["kind"] != "plain":
+                yield body[:i] + [dict(s, after=dict(s["after"], kind="plain"))] + body[i + 1 :]
         for key in ("body", "then", "else", "gap"):
             if s.get(key):
                 for nb in shrink_body(s[key]):
